@@ -1,12 +1,12 @@
 \* C12 leg A thorough: lists of <= 5 values in 0..7, <= 4 calls (Next, Seek 0..8), not streamed + chunk sizes 1..4,
-\* 2-byte varints from difference 2; harness cases: lists <= 4 over 0..4 x op sequences <= 3
+\* 2-byte varints from difference 2; harness cases: lists <= 4 over 0..3 x op sequences <= 3
 SPECIFICATION Spec
 CONSTANTS MaxVal = 7
           MaxLen = 5
           MaxOps = 4
           ChunkSizes = {0, 1, 2, 3, 4}
           W2 = 2
-          CaseVal = 4
+          CaseVal = 3
           CaseLen = 4
           CaseOps = 3
 INVARIANT C12_SeekAndNextBehaveAsOnOriginal
